@@ -356,6 +356,21 @@ func (m *merger) mergeVals(vs []Value) Value {
 			}
 		}
 		return out
+	case *Boxed:
+		col := make([]Value, len(vs))
+		for j, v := range vs {
+			b, ok := v.(*Boxed)
+			if !ok || (b.T != nil && x.T != nil && !types.Identical(b.T, x.T)) {
+				m.fail = "boxed type mismatch"
+				return nil
+			}
+			col[j] = b.Val
+		}
+		val := m.mergeVals(col)
+		if m.fail != "" {
+			return nil
+		}
+		return &Boxed{T: x.T, Val: val}
 	case string, SymStr, float64, nil, *ssa.Function, MapRef, UnknownVal:
 		m.fail = fmt.Sprintf("differing %T values", x)
 		return nil
